@@ -104,6 +104,7 @@ def report(prop, tier, seed, mod, results, t0):
     known_hits = {}      # finding index -> list of oids
     harness = []
     inconclusive = []
+    known_inconclusive = []
     samples = []
     nq = 0
     st_time = 0.0
@@ -148,6 +149,9 @@ def report(prop, tier, seed, mod, results, t0):
             is_known = None
             if stt == 'sat':
                 rp = rec.get('replay') or {}
+                if not rp.get('reproduced') and any(fnmatch.fnmatch(rec['oid'], f['match']) for f in known):
+                    known_inconclusive.append(rec['oid'])
+                    continue
                 if not rp.get('reproduced'):
                     if rec['required'] and rp.get('kind') in ('finite', 'nz') and rp.get('why') is None:
                         inconclusive.append('%s: %s: zero denominator in exact arithmetic, not hit exactly by the float64 replay'
@@ -165,6 +169,9 @@ def report(prop, tier, seed, mod, results, t0):
                     known_hits.setdefault(is_known, []).append(rec['oid'])
                     continue
                 violations.append((res, rec, path))
+                continue
+            if stt != 'unsat' and any(fnmatch.fnmatch(rec['oid'], f['match']) for f in known):
+                known_inconclusive.append(rec['oid'])      # family already recorded as violated
                 continue
             if rec['required']:
                 n_ob += 1
@@ -231,6 +238,7 @@ def report(prop, tier, seed, mod, results, t0):
         'axiom_instances': axioms,
         'known_findings_hit': [{'what_fails': known[i]['what_fails'], 'obligations': len(o), 'example': o[0]}
                                for i, o in sorted(known_hits.items())],
+        'undecided_within_known_finding_families': len(known_inconclusive),
         'inconclusive': inconclusive[:50], 'harness_errors': harness[:50],
         'exit_code': code,
     }
